@@ -56,8 +56,14 @@ def gen_uri(rng):
         u = rng.choice(PFX) + 'capability:' + rng.choice(NAMES) + ':' + rng.choice(VERS)
     elif r < 0.70:
         u = rng.choice(PFX) + 'base:' + rng.choice(VERS)
-    elif r < 0.85:
+    elif r < 0.80:
         u = rng.choice(LOOKALIKE)
+    elif r < 0.87:
+        # a well-formed IETF URN EMBEDDED in (not at the start of) a vendor URI, or spelled in another case: never an IETF capability
+        w = rng.choice(PFX) + rng.choice(['capability:' + rng.choice(NAMES[:11]) + ':', 'base:']) + rng.choice(VERS[:2])
+        u = rng.choice(['x-', 'urn:acme:params:legacy:', 'http://example.com/unsupported/', ' ', 'urn:', 'URN:', '{', 'urn:ietf:params:netconf:capability:'][:7]) + w
+        if rng.random() < 0.2:
+            u = w.upper()
     else:
         # truncate a well-formed one after a random segment / character
         u = rng.choice(PFX) + rng.choice(['capability:', 'base:']) + rng.choice(NAMES) + ':' + rng.choice(VERS)
@@ -102,7 +108,7 @@ class C08(Check):
     ID = 'C08'
     PROPS_MODULE = 'NcVerif.Props.C08'
     RULE = ('URI lists from a grammar (well-formed under both IETF prefixes, truncated at every segment / character, '
-            'over-long, non-IETF look-alikes, odd parameter strings, duplicates) x one query (advertised full URI, '
+            'over-long, non-IETF look-alikes, IETF URNs embedded in vendor URIs or in upper case, odd parameter strings, duplicates) x one query (advertised full URI, '
             'shorthand of a present URI, shorthand of an absent one, URI without its parameters, junk). A case is '
             'non-trivial when the list is non-empty and the lookup either succeeds or walks at least one IETF-prefixed URI; '
             'distinct = distinct (uris, key).')
